@@ -8,8 +8,11 @@
 //           auth 0 none configured, 1 accepted, 2 refused; enc 0 good, 1 bad body (eager decoder), 2 bad body
 //           (lazy decoder), 3 unsupported Content-Encoding; ct 0 protobuf, 1 json, 2 anything else;
 //           body -1 = does not unmarshal, n >= 0 = n items; body_code -1 = body is not an rpc.Status
-//   kind 8  hop through an exporter: [transport; auth; items; o...; signal; compression; sets_event_name_or_zero_threshold] -> [called; verdict; delay; errcode; sink_n; sink_eq]
+//   kind 8  hop through an exporter: [transport; auth; items; o...; signal; compression; sets_event_name_or_zero_threshold; compression level; body KiB] -> [called; verdict; delay; errcode; sink_n; sink_eq]
 //           transport 0 grpc, 1 http/proto, 2 http/json; verdict 0 success, 1 permanent, 2 retryable, 3 throttle
+//   kind 10 hop while the receiver shuts down: [transport; phase; items; o...; signal] -> [called; verdict; delay; errcode; sink_n; sink_eq]
+//           phase 1: the export is inside the next consumer when Receiver.Shutdown starts (the consumer answers afterwards);
+//           phase 2: the export is sent after Shutdown returned (errcode not compared: there is no status on the HTTP route)
 //   kind 9  raw gRPC frame:    [auth; body; o...]                            -> [called; code; ri_present; ri_nanos]   (code 0 = OK)
 //
 // Direct oracle (independent of the Coq model): the property's sentences — sink payload equals the sent
@@ -201,6 +204,9 @@ type vSink struct {
 	mu    sync.Mutex
 	err   error
 	calls [][]byte
+	// when set, every consume call announces itself on entered and then waits for release (shutdown scenarios)
+	entered chan struct{}
+	release chan struct{}
 }
 
 func (s *vSink) set(err error) {
@@ -211,6 +217,13 @@ func (s *vSink) set(err error) {
 }
 
 func (s *vSink) record(b []byte) error {
+	s.mu.Lock()
+	ent, rel := s.entered, s.release
+	s.mu.Unlock()
+	if ent != nil {
+		ent <- struct{}{}
+		<-rel
+	}
 	s.mu.Lock()
 	defer s.mu.Unlock()
 	s.calls = append(s.calls, b)
@@ -332,8 +345,21 @@ type vExp struct {
 var vGrpcComps = []string{"none", "gzip", "snappy", "zstd"}
 var vHTTPComps = []string{"none", "gzip", "zlib", "deflate", "snappy", "zstd", "lz4"}
 
+// comp is a compression name, optionally followed by ":<level>" (compression_params.level of the HTTP client)
+func vCompLevel(comp string) (string, int) {
+	if i := strings.IndexByte(comp, ':'); i >= 0 {
+		n, err := strconv.Atoi(comp[i+1:])
+		if err != nil {
+			panic(err)
+		}
+		return comp[:i], n
+	}
+	return comp, 0
+}
+
 func vNewExporter(transport int, comp string, authHdr int, signal int, r *vRecv, host component.Host) (*vExp, error) {
 	ctx := context.Background()
+	comp, level := vCompLevel(comp)
 	hdr := map[string]configopaque.String{}
 	switch authHdr {
 	case 1:
@@ -373,6 +399,10 @@ func vNewExporter(transport int, comp string, authHdr int, signal int, r *vRecv,
 		cfg := f.CreateDefaultConfig().(*otlphttpexporter.Config)
 		cfg.ClientConfig.Endpoint = "http://" + r.httpAddr
 		cfg.ClientConfig.Compression = configcompression.Type(comp)
+		cfg.ClientConfig.CompressionParams = configcompression.CompressionParams{Level: configcompression.Level(level)}
+		if err := cfg.ClientConfig.Compression.ValidateParams(cfg.ClientConfig.CompressionParams); err != nil {
+			return nil, err
+		}
 		cfg.ClientConfig.Headers = hdr
 		cfg.ClientConfig.Timeout = 60 * time.Second
 		cfg.RetryConfig.Enabled = false
@@ -816,23 +846,35 @@ func vMkPayload(r *vRand, signal, n int) vPayload {
 	switch signal {
 	case 0:
 		td := vGenTraces(r, n)
+		if vBlobBytes > 0 {
+			vAddBlob(r, td.ResourceSpans().At(r.Intn(td.ResourceSpans().Len())).Resource().Attributes(), vBlobBytes)
+		}
 		if td.SpanCount() != n {
 			panic("generator: span count")
 		}
 		c, _ := (&ptrace.ProtoMarshaler{}).MarshalTraces(td)
 		req := ptraceotlp.NewExportRequestFromTraces(td)
 		pb, _ := req.MarshalProto()
-		js, _ := req.MarshalJSON()
+		var js []byte
+		if !vSkipJSON {
+			js, _ = req.MarshalJSON()
+		}
 		return vPayload{c, pb, js, func(e *vExp) error { return e.traces.ConsumeTraces(ctx, td) }, nil, ""}
 	case 1:
 		md := vGenMetrics(r, n)
+		if vBlobBytes > 0 {
+			vAddBlob(r, md.ResourceMetrics().At(r.Intn(md.ResourceMetrics().Len())).Resource().Attributes(), vBlobBytes)
+		}
 		if md.DataPointCount() != n {
 			panic("generator: data point count")
 		}
 		c, _ := (&pmetric.ProtoMarshaler{}).MarshalMetrics(md)
 		req := pmetricotlp.NewExportRequestFromMetrics(md)
 		pb, _ := req.MarshalProto()
-		js, _ := req.MarshalJSON()
+		var js []byte
+		if !vSkipJSON {
+			js, _ = req.MarshalJSON()
+		}
 		cp := pmetric.NewMetrics()
 		md.CopyTo(cp)
 		for i := 0; i < cp.ResourceMetrics().Len(); i++ {
@@ -855,13 +897,19 @@ func vMkPayload(r *vRand, signal, n int) vPayload {
 		return vPayload{c, pb, js, func(e *vExp) error { return e.metrics.ConsumeMetrics(ctx, md) }, alt, "sets ExponentialHistogramDataPoint.zero_threshold; "}
 	case 2:
 		ld := vGenLogs(r, n)
+		if vBlobBytes > 0 {
+			vAddBlob(r, ld.ResourceLogs().At(r.Intn(ld.ResourceLogs().Len())).Resource().Attributes(), vBlobBytes)
+		}
 		if ld.LogRecordCount() != n {
 			panic("generator: log record count")
 		}
 		c, _ := (&plog.ProtoMarshaler{}).MarshalLogs(ld)
 		req := plogotlp.NewExportRequestFromLogs(ld)
 		pb, _ := req.MarshalProto()
-		js, _ := req.MarshalJSON()
+		var js []byte
+		if !vSkipJSON {
+			js, _ = req.MarshalJSON()
+		}
 		cp := plog.NewLogs()
 		ld.CopyTo(cp)
 		for i := 0; i < cp.ResourceLogs().Len(); i++ {
@@ -879,13 +927,19 @@ func vMkPayload(r *vRand, signal, n int) vPayload {
 		return vPayload{c, pb, js, func(e *vExp) error { return e.logs.ConsumeLogs(ctx, ld) }, alt, "sets LogRecord.event_name; "}
 	default:
 		pd := vGenProfiles(r, n)
+		if vBlobBytes > 0 {
+			vAddBlob(r, pd.ResourceProfiles().At(r.Intn(pd.ResourceProfiles().Len())).Resource().Attributes(), vBlobBytes)
+		}
 		if pd.SampleCount() != n {
 			panic("generator: sample count")
 		}
 		c, _ := (&pprofile.ProtoMarshaler{}).MarshalProfiles(pd)
 		req := pprofileotlp.NewExportRequestFromProfiles(pd)
 		pb, _ := req.MarshalProto()
-		js, _ := req.MarshalJSON()
+		var js []byte
+		if !vSkipJSON {
+			js, _ = req.MarshalJSON()
+		}
 		return vPayload{c, pb, js, func(e *vExp) error { return e.profiles.ConsumeProfiles(ctx, pd) }, nil, ""}
 	}
 }
@@ -925,7 +979,43 @@ func vUnmarshalFails(signal int, ct int, b []byte) bool {
 	return err != nil
 }
 
+// vBadFlavour selects the kind of malformed body: 0 random, 1 bytes that fail before anything is decoded,
+// 2 a VALID request with >= 1 item followed by a corrupted tail (decoders fill the request incrementally, so
+// part of the data is already decoded when the error is found: truncated upload, corrupted tail)
+var vBadFlavour int
+
 func vBadBody(r *vRand, signal, ct int) []byte {
+	fl := vBadFlavour
+	if fl == 0 {
+		fl = 1 + r.Intn(2)
+	}
+	if fl == 2 {
+		saved := vSkipJSON
+		vSkipJSON = false
+		p := vMkPayload(r, signal, 1+r.Intn(5))
+		vSkipJSON = saved
+		var cands [][]byte
+		if ct == 0 {
+			cands = [][]byte{
+				append(append([]byte{}, p.pb...), 0x0a, 0x7f, 0x01),       // a truncated length-delimited field 1
+				append(append([]byte{}, p.pb...), 0xff, 0xff, 0xff),       // an unterminated varint tag
+				append(append([]byte{}, p.pb...), p.pb[:len(p.pb)-1]...), // a second copy cut short
+			}
+		} else {
+			cands = [][]byte{
+				append([]byte{}, p.js[:len(p.js)-1]...),       // the closing brace is missing
+				append(append([]byte{}, p.js[:len(p.js)-1]...), []byte(`,"x":[1,`)...),
+				append(append([]byte{}, p.js...), []byte(`{`)...),
+			}
+		}
+		k := r.Intn(len(cands))
+		for i := 0; i < len(cands); i++ {
+			b := cands[(k+i)%len(cands)]
+			if vUnmarshalFails(signal, ct, b) {
+				return b
+			}
+		}
+	}
 	pbBad := [][]byte{{0xff, 0xff, 0xff}, {0x0a, 0x7f, 0x01}, {0x0a}, []byte("this is not protobuf at all")}
 	jsBad := [][]byte{[]byte("{"), []byte("not json"), []byte(`{"resourceSpans": 5`), []byte(`[1,2`), {0xff, 0xfe}}
 	for i := 0; i < 50; i++ {
@@ -951,7 +1041,59 @@ func vBadBody(r *vRand, signal, ct int) []byte {
 
 // ---- one hop through an exporter (kind 8) ---------------------------------------------------------------
 func (v *vEnv) hop(r *vRand, transport, auth, items int, o vOutcome, signal int, comp string, compIdx int) {
-	p := vMkPayload(r, signal, items)
+	v.hopP(r, transport, auth, items, o, signal, comp, compIdx, nil)
+}
+
+// a payload of the signal whose protobuf body has at least minBytes bytes (several blocks / windows of every compressor)
+func vMkLargePayload(r *vRand, signal, minBytes int) (vPayload, int) {
+	vSkipJSON = true // the JSON request body is only needed by the raw HTTP requests
+	vBlobBytes = minBytes
+	defer func() { vSkipJSON, vBlobBytes = false, 0 }()
+	n := 20 + r.Intn(200)
+	return vMkPayload(r, signal, n), n
+}
+
+// vAddBlob makes the payload large: half incompressible bytes, half repetitive text, spread over a few attributes
+func vAddBlob(r *vRand, m pcommon.Map, total int) {
+	parts := 1 + r.Intn(3)
+	for i := 0; i < parts; i++ {
+		sz := total / parts
+		if i%2 == 0 {
+			b := make([]byte, sz/2+8)
+			for k := 0; k+8 <= len(b); k += 8 {
+				x := r.U64()
+				for q := 0; q < 8; q++ {
+					b[k+q] = byte(x >> (8 * q))
+				}
+			}
+			m.PutEmptyBytes(fmt.Sprintf("blob%d", i)).FromRaw(b)
+			m.PutStr(fmt.Sprintf("text%d", i), strings.Repeat("the quick brown fox "+vStr8(r), sz/2/24+1))
+		} else {
+			b := make([]byte, sz+8)
+			for k := 0; k+8 <= len(b); k += 8 {
+				x := r.U64()
+				for q := 0; q < 8; q++ {
+					b[k+q] = byte(x >> (8 * q))
+				}
+			}
+			m.PutEmptyBytes(fmt.Sprintf("blob%d", i)).FromRaw(b)
+		}
+	}
+}
+
+var vBlobBytes int
+
+var vSkipJSON bool
+
+func (v *vEnv) hopP(r *vRand, transport, auth, items int, o vOutcome, signal int, comp string, compIdx int, given *vPayload) {
+	var p vPayload
+	if given != nil {
+		p = *given
+	} else {
+		p = vMkPayload(r, signal, items)
+	}
+	_, level := vCompLevel(comp)
+	kib := len(p.pb) / 1024
 	rc := v.recv(auth)
 	rc.sink.set(o.err())
 	e := v.exporter(transport, comp, auth, signal)
@@ -975,7 +1117,15 @@ func (v *vEnv) hop(r *vRand, transport, auth, items int, o vOutcome, signal int,
 		}
 	}
 	in := append([]string{vZ(int64(transport)), vZ(int64(auth)), vZ(int64(items))}, o.terms()...)
-	in = append(in, vZ(int64(signal)), vZ(int64(compIdx)), vZ(lossy))
+	in = append(in, vZ(int64(signal)), vZ(int64(compIdx)), vZ(lossy), vZ(int64(level)), vZ(int64(kib)))
+	switch {
+	case kib >= 1024:
+		v.out.Stat("hop_body_ge_1MiB", 1)
+	case kib >= 128:
+		v.out.Stat("hop_body_128KiB_to_1MiB", 1)
+	default:
+		v.out.Stat("hop_body_lt_128KiB", 1)
+	}
 	b2z := func(b bool) int64 {
 		if b {
 			return 1
@@ -994,8 +1144,8 @@ func (v *vEnv) hop(r *vRand, transport, auth, items int, o vOutcome, signal int,
 	if items == 0 {
 		v.out.Stat("hop_items_0", 1)
 	}
-	desc := fmt.Sprintf("transport=%d auth=%d items=%d signal=%d comp=%s outcome=%+v: called=%v verdict=%d delay=%d code=%d err=%v",
-		transport, auth, items, signal, comp, o, called, verdict, delay, code, err)
+	desc := fmt.Sprintf("transport=%d auth=%d items=%d body=%dKiB signal=%d comp=%s outcome=%+v: called=%v verdict=%d delay=%d code=%d err=%v",
+		transport, auth, items, kib, signal, comp, o, called, verdict, delay, code, err)
 	// ---- direct oracle
 	if sinkEq != 1 || len(got) > 1 {
 		why := ""
@@ -1432,6 +1582,162 @@ func (v *vEnv) rawGRPC(r *vRand, auth int, bodyItems int, o vOutcome, signal int
 	}
 }
 
+
+// ---- a hop that overlaps the receiver's Shutdown (kind 10) ---------------------------------------------------
+// A dedicated receiver per scenario.  The export is started, the harness waits until the next consumer has been
+// entered (it blocks there), starts Shutdown, polls until the listener that carries the request refuses new
+// connections (= Shutdown has acted on that server), and only then lets the consumer answer.  Shutdown drains:
+// the sender must see exactly what it would have seen without the shutdown.  Afterwards one more export is sent
+// to the stopped receiver: it must not reach the consumer and must fail as retryable.
+func (v *vEnv) shutdownScenario(r *vRand, transport int, o vOutcome, signal int) {
+	const wait = 120 * time.Second
+	rc, err := vStartReceiver(false, v.host)
+	if err != nil {
+		v.t.Fatalf("cannot start a receiver: %v", err)
+	}
+	stopped := false
+	defer func() {
+		if !stopped {
+			rc.stop()
+		}
+	}()
+	rc.sink.set(o.err())
+	entered, release := make(chan struct{}, 8), make(chan struct{})
+	rc.sink.mu.Lock()
+	rc.sink.entered, rc.sink.release = entered, release
+	rc.sink.mu.Unlock()
+	released := false
+	defer func() {
+		if !released {
+			close(release)
+		}
+	}()
+	comp, _ := v.comp(r, transport)
+	e, err := vNewExporter(transport, comp, 0, signal, rc, v.host)
+	if err != nil {
+		v.t.Fatalf("cannot create an exporter: %v", err)
+	}
+	defer func() { _ = e.comp.Shutdown(context.Background()) }()
+	items := 1 + r.Intn(6)
+	p := vMkPayload(r, signal, items)
+	sent := make(chan error, 1)
+	go func() { sent <- p.send(e) }()
+	select {
+	case <-entered:
+	case err := <-sent:
+		v.t.Fatalf("shutdown scenario: the export returned before it reached the consumer: %v", err)
+	case <-time.After(wait):
+		v.t.Fatalf("shutdown scenario: the export never reached the consumer")
+	}
+	shut := make(chan struct{})
+	go func() { rc.stop(); close(shut) }()
+	addr := rc.grpcAddr
+	if transport != 0 {
+		addr = rc.httpAddr
+	}
+	deadline := time.Now().Add(wait)
+	for {
+		c, derr := net.DialTimeout("tcp4", addr, 2*time.Second)
+		if derr != nil {
+			break
+		}
+		_ = c.Close()
+		if time.Now().After(deadline) {
+			v.t.Fatalf("shutdown scenario: the listener %s is still accepting %v after Shutdown was called", addr, wait)
+		}
+		time.Sleep(2 * time.Millisecond)
+	}
+	// a shutdown that does not drain needs a moment to cut the connection; on a draining one this only delays the test
+	time.Sleep(60 * time.Millisecond)
+	released = true
+	close(release)
+	var sendErr error
+	select {
+	case sendErr = <-sent:
+	case <-time.After(wait):
+		v.t.Fatalf("shutdown scenario: the in-flight export never returned")
+	}
+	select {
+	case <-shut:
+		stopped = true
+	case <-time.After(wait):
+		v.t.Fatalf("shutdown scenario: Shutdown never returned")
+	}
+	b2z := func(b bool) int64 {
+		if b {
+			return 1
+		}
+		return 0
+	}
+	report := func(phase int, items int, p vPayload, err error, got [][]byte) {
+		verdict, delay := vClassify(err)
+		code := vErrCode(err)
+		called := len(got) > 0
+		sinkEq := int64(1)
+		for _, g := range got {
+			if !bytes.Equal(g, p.canon) {
+				sinkEq = 0
+			}
+		}
+		in := append([]string{vZ(int64(transport)), vZ(int64(phase)), vZ(int64(items))}, o.terms()...)
+		in = append(in, vZ(int64(signal)))
+		obs := []string{vZ(b2z(called)), vZ(int64(verdict)), vZ(delay), vZ(code), vZ(int64(len(got))), vZ(sinkEq)}
+		term := vPair("10", vPair(vList(in), vList(obs)))
+		v.out.Case(true, term)
+		v.out.Stat(fmt.Sprintf("shutdown_phase_%d_transport_%d", phase, transport), 1)
+		v.out.Stat(fmt.Sprintf("shutdown_phase_%d_verdict_%d", phase, verdict), 1)
+		desc := fmt.Sprintf("transport=%d phase=%d items=%d signal=%d comp=%s outcome=%+v: called=%v verdict=%d delay=%d code=%d err=%v",
+			transport, phase, items, signal, comp, o, called, verdict, delay, code, err)
+		cls := verdict
+		if cls == 3 {
+			cls = 2
+		}
+		if phase == 2 {
+			if called {
+				v.out.Oracle("request-after-shutdown-reached-consumer", term, desc)
+			}
+			if cls != 2 {
+				v.out.Oracle("success-iff-accepted", term, "an export to a receiver that has shut down must fail as retryable (nothing was consumed); "+desc)
+			}
+			return
+		}
+		if !called || len(got) != 1 {
+			v.out.Oracle("payload-not-delivered", term, desc)
+		} else if sinkEq != 1 {
+			v.out.Oracle("sink-payload-differs", term, desc)
+		}
+		want := o.expectedClass(transport)
+		switch {
+		case want == 3:
+			if cls == 0 {
+				v.out.Oracle("error-becomes-success", term, "custom error type with GRPCStatus().Code()==OK: sender sees success although the consumer refused; "+desc)
+			}
+		case want != cls:
+			if (want == 0) != (cls == 0) {
+				v.out.Oracle("success-iff-accepted", term, "the export was inside the consumer when the receiver's Shutdown started; "+desc)
+			} else {
+				v.out.Oracle("failure-meaning-changed", term, fmt.Sprintf("want class %d; the export was inside the consumer when the receiver's Shutdown started; %s", want, desc))
+			}
+		}
+	}
+	// the consumer was entered: wait until that call has returned before looking at the sink (a shutdown that
+	// does not drain lets the sender return first)
+	for dl := time.Now().Add(30 * time.Second); len(rc.sink.got()) == 0 && time.Now().Before(dl); {
+		time.Sleep(2 * time.Millisecond)
+	}
+	report(1, items, p, sendErr, rc.sink.got())
+	// phase 2: the receiver is gone
+	rc.sink.set(nil)
+	rc.sink.mu.Lock()
+	rc.sink.entered, rc.sink.release = nil, nil
+	rc.sink.mu.Unlock()
+	items2 := 1 + r.Intn(4)
+	p2 := vMkPayload(r, signal, items2)
+	err2 := p2.send(e)
+	o = vOutcome{}
+	report(2, items2, p2, err2, rc.sink.got())
+}
+
 // ---- generators ---------------------------------------------------------------------------------------------------
 var vDelays = []time.Duration{0, 1, 999999999, time.Second, 1500 * time.Millisecond, 7 * time.Second, -1, -1500 * time.Millisecond, 3600 * time.Second, 2 * time.Second}
 
@@ -1522,6 +1828,8 @@ func TestVerifC15Hop(t *testing.T) {
 		}
 	}()
 
+	t0 := time.Now()
+	lap := func(name string) { t.Logf("phase %s done at %v", name, time.Since(t0)) }
 	// (1) every outcome class x every transport, no authenticator, >= 1 item
 	for _, o := range vSystematicOutcomes(r) {
 		for transport := 0; transport < 3; transport++ {
@@ -1541,6 +1849,58 @@ func TestVerifC15Hop(t *testing.T) {
 			}
 		}
 	}
+	lap("2")
+	// (2b) every compression x LEVEL x transport with bodies of several compressor blocks / windows (160 KiB .. ~2.5 MiB):
+	// "any supported compression" includes every compression_params.level the client accepts and bodies of real batch size
+	for transport := 0; transport < 3; transport++ {
+		variants := []string{"none", "gzip", "snappy", "zstd"}
+		if transport != 0 {
+			variants = []string{"none", "gzip", "gzip:1", "gzip:9", "gzip:-2", "zlib", "zlib:9", "deflate", "deflate:1", "snappy", "lz4",
+				"zstd", "zstd:1", "zstd:3", "zstd:6", "zstd:9", "zstd:11"}
+		}
+		for k, cv := range variants {
+			name, _ := vCompLevel(cv)
+			ci := 0
+			comps := vHTTPComps
+			if transport == 0 {
+				comps = vGrpcComps
+			}
+			for i, c := range comps {
+				if c == name {
+					ci = i
+				}
+			}
+			signal := (k + transport) % 4
+			minBytes := []int{160 << 10, 400 << 10, 1 << 20}[(k+2*transport)%3]
+			if transport == 2 && minBytes > 400<<10 {
+				minBytes = 400 << 10 // the JSON body is ~3x the protobuf one
+			}
+			p, n := vMkLargePayload(r, signal, minBytes)
+			o := vOutcome{}
+			if k%5 == 4 {
+				o = vRandOutcome(r)
+			}
+			v.hopP(r, transport, 0, n, o, signal, cv, ci, &p)
+		}
+	}
+	lap("2b")
+	// random levels with ordinary payloads
+	for i, n := 0, vBudget(30, 10); i < n; i++ {
+		transport := 1 + r.Intn(2)
+		name := []string{"gzip", "zlib", "deflate", "zstd"}[r.Intn(4)]
+		lv := []int{1, 2, 3, 4, 5, 6, 7, 8, 9, -2}[r.Intn(10)]
+		if name == "zstd" {
+			lv = 1 + r.Intn(22)
+		}
+		ci := 0
+		for j, c := range vHTTPComps {
+			if c == name {
+				ci = j
+			}
+		}
+		v.hop(r, transport, 0, 1+r.Intn(40), vRandOutcome(r), r.Intn(4), fmt.Sprintf("%s:%d", name, lv), ci)
+	}
+	lap("2c")
 	// (3) no items: acknowledged without the consumer; authenticator accepts / refuses
 	for transport := 0; transport < 3; transport++ {
 		for signal := 0; signal < 4; signal++ {
@@ -1559,6 +1919,7 @@ func TestVerifC15Hop(t *testing.T) {
 		items := r.Pick(1, 6) * (1 + r.Intn(8))
 		v.hop(r, transport, r.Pick(4, 2, 1), items, vRandOutcome(r), r.Intn(4), comp, ci)
 	}
+	lap("4")
 	// (5) raw HTTP requests: every (auth, enc, method, content type, body) class, then random
 	for auth := 0; auth < 3; auth++ {
 		for enc := 0; enc < 4; enc++ {
@@ -1571,12 +1932,24 @@ func TestVerifC15Hop(t *testing.T) {
 			}
 		}
 	}
+	// malformed bodies: every signal x encoding x {fails at once, valid prefix + corrupted tail} x consumer {accepts, refuses}
+	for signal := 0; signal < 4; signal++ {
+		for ct := 0; ct < 2; ct++ {
+			for fl := 1; fl <= 2; fl++ {
+				vBadFlavour = fl
+				v.rawHTTP(r, 0, 0, true, ct, -1, vOutcome{}, signal)
+				v.rawHTTP(r, r.Intn(2), 2*r.Intn(2), true, ct, -1, vRandOutcome(r), signal)
+				vBadFlavour = 0
+			}
+		}
+	}
 	for _, o := range vSystematicOutcomes(r) {
 		v.rawHTTP(r, 0, 0, true, r.Intn(2), 1+r.Intn(4), o, r.Intn(4))
 	}
 	for i, n := 0, vBudget(220, 10); i < n; i++ {
 		v.rawHTTP(r, r.Pick(3, 1, 1), r.Pick(5, 1, 1, 1), r.Intn(8) != 0, r.Pick(3, 3, 1), r.Pick(1, 1, 4)-1+r.Intn(2), vRandOutcome(r), r.Intn(4))
 	}
+	lap("5")
 	// (6) raw gRPC frames
 	for auth := 0; auth < 3; auth++ {
 		for _, body := range []int{-1, 0, 3} {
@@ -1585,10 +1958,29 @@ func TestVerifC15Hop(t *testing.T) {
 			}
 		}
 	}
+	for signal := 0; signal < 4; signal++ {
+		for fl := 1; fl <= 2; fl++ {
+			vBadFlavour = fl
+			v.rawGRPC(r, 0, -1, vOutcome{}, signal)
+			vBadFlavour = 0
+		}
+	}
 	for _, o := range vSystematicOutcomes(r) {
 		v.rawGRPC(r, 0, 1+r.Intn(4), o, r.Intn(4))
 	}
 	for i, n := 0, vBudget(40, 10); i < n; i++ {
 		v.rawGRPC(r, r.Pick(3, 1, 1), r.Pick(1, 1, 5)-1+r.Intn(2), vRandOutcome(r), r.Intn(4))
 	}
+	lap("6")
+	// (7) exports that overlap the receiver's Shutdown: every transport x {accepted, refused as permanent, refused as
+	// transient, explicit status with a throttling delay}, then random outcomes
+	for transport := 0; transport < 3; transport++ {
+		for _, o := range []vOutcome{{}, {okind: 2}, {okind: 1}, {okind: 3, code: 8, riKind: 1, d: 2 * time.Second}} {
+			v.shutdownScenario(r, transport, o, r.Intn(4))
+		}
+	}
+	for i, n := 0, vBudget(6, 5); i < n; i++ {
+		v.shutdownScenario(r, r.Intn(3), vRandOutcome(r), r.Intn(4))
+	}
+	lap("7")
 }
